@@ -239,25 +239,30 @@ def rule_wiring(facts, rep):
     b = facts.body("anstyle_ls", F)
     top = hir.stmts_of(b["hir"])
     code = b["params"][0]["name"]
-    # early None
-    s0 = hir.simp(top[0])
-    ok = False
-    if s0.get("k") == "if" and hir.diverges(s0["t"]):
-        parts = hir.split_or(s0["c"])
-        got = set()
-        for p in parts:
+    # early None: the leading run of `if <cond> { return None }` statements (an `a || b` condition is the same as two ifs)
+    got = set()
+    ok = True
+    n_early = 0
+    for st in top:
+        s0 = hir.simp(st)
+        if not (s0.get("k") == "if" and "e" not in s0 and hir.diverges(s0["t"])):
+            break
+        n_early += 1
+        r = hir.simp(hir.stmts_of(s0["t"])[-1])
+        ok = ok and r.get("k") == "ret" and hir.is_def(r.get("e"), "Option::None")
+        for p in hir.split_or(s0["c"]):
             p = hir.simp(p)
             if hir.is_call(p, "is_empty") and hir.is_local(p["args"][0], code):
                 got.add("")
             elif p.get("k") == "bin" and p["op"] == "Eq" and hir.is_local(p["l"], code):
                 got.add(hir.lit_val(p["r"]))
-        r = hir.simp(hir.stmts_of(s0["t"])[-1])
-        ok = got == {"", "0", "00"} and r.get("k") == "ret" and hir.is_def(r.get("e"), "Option::None")
-    rep.check(ok, "wiring", b["path"], "no-style-for-empty-0-00", "", loc(b, s0))
+            else:
+                got.add("?" + hirpp.expr(p)[:40])
+    rep.check(ok and got == {"", "0", "00"}, "wiring", b["path"], "no-style-for-empty-0-00", f"{sorted(got)}", loc(b))
     # all-or-nothing numeric split
-    s1 = top[1]
+    s1 = top[n_early] if n_early < len(top) else {}
     ok = False
-    if s1.get("k") == "let" and s1["pat"].get("name") == "parts":
+    if s1.get("k") == "let" and s1["pat"].get("k") == "pbind":
         t = hir.try_inner(s1["init"])
         if t is not None:
             t = hir.simp(t)
